@@ -482,6 +482,11 @@ pub fn random_behaviour(r: &mut Rng, t: &mut Trace, steps: usize) {
                     json!({"op": "bank_send", "caller": who, "dest": dest, "coins": [[id_of(&info), st(amount)]]})
                 } else if r.chance(1, 3) {
                     json!({"op": "cw20_decrease_allowance", "token": id_of(&info), "caller": who, "spender": paddr, "amount": st(amount)})
+                } else if r.chance(1, 3) {
+                    // the holder destroys tokens (LP tokens: the supply shrinks, the reserves stay)
+                    let bal = balance(&w, &info, who);
+                    let a = match r.below(4) { 0 => bal, 1 => bal / 2 + 1, 2 => bal.saturating_add(1), _ => amount.min(bal.max(1)) };
+                    json!({"op": "cw20_burn", "token": id_of(&info), "caller": who, "amount": st(a)})
                 } else {
                     json!({"op": "cw20_transfer", "token": id_of(&info), "caller": who, "dest": dest, "amount": st(amount)})
                 };
@@ -1052,6 +1057,31 @@ pub fn routes_behaviour(r: &mut Rng, t: &mut Trace) {
                     }
                 }
             }
+            // (4) a two-hop chain A->B->C listed in the wrong order [B->C, A->B] with BOTH native heads funded: executed
+            //     in listed order it leaves C in the router and delivers only B (two dangling outputs): must be refused
+            if hops == 1 {
+                let amount = mag / 750 + 19;
+                let mut done = 0;
+                for j in 0..np {
+                    for k in 0..np {
+                        if j == k || done >= 2 { continue; }
+                        let (j0, j1) = pair_infos(&w, j);
+                        let (k0, k1) = pair_infos(&w, k);
+                        for (a, b) in [(j0.clone(), j1.clone()), (j1.clone(), j0.clone())] {
+                            for (b2, c) in [(k0.clone(), k1.clone()), (k1.clone(), k0.clone())] {
+                                if b == b2 && c != a && is_native(&a) && is_native(&b) && done < 2 {
+                                    let wrong = json!([{"offer_info": b, "ask_info": c}, {"offer_info": a, "ask_info": b}]);
+                                    let funds = funds_for(&[(a.clone(), amount), (b.clone(), amount + 2)]);
+                                    for (min, to) in [(nul(), nul()), (st(1), Value::String("bob".to_string()))] {
+                                        t.run(&mut w, json!({"op": "router_ops", "caller": "carol", "operations": wrong, "min": min, "to": to, "funds": funds}));
+                                    }
+                                    done += 1;
+                                }
+                            }
+                        }
+                    }
+                }
+            }
             // quote-then-swap on every pair of the route, both directions (C12 forward on fee-free and ordinary pairs)
             for (o, _a) in route.iter() {
                 for j in 0..np {
@@ -1239,8 +1269,42 @@ pub fn withdraw_behaviour(r: &mut Rng, t: &mut Trace) {
             t.run(&mut w, op);
         }
     }
-    for _ in 0..2 {
+    for round in 0..2 {
         inject_withdrawals(r, t, &mut w);
+        if round == 0 {
+            // the owner re-registers the native denoms with new decimals (the factory pushes the update to every pair
+            // holding them): withdrawals, provisions and swaps must go on working afterwards
+            for d in ["ua", "ub"] {
+                let dec = r.below(19);
+                t.run(&mut w, json!({"op": "fac_add_native", "caller": "owner", "denom": d, "decimals": dec}));
+            }
+            // holders destroy LP tokens (cw20 Burn): part of a balance, a whole balance; on one pair every holder
+            // burns everything, leaving the supply at the reserved unit over full reserves
+            for i in 0..np {
+                let lp = tok(&w.pairs[i].lp);
+                let everyone = i == np - 1;
+                for holder in ["alice", "bob", "carol"] {
+                    let bal = balance(&w, &lp, holder);
+                    if bal == 0 || !(everyone || r.chance(1, 2)) {
+                        continue;
+                    }
+                    let a = if everyone || r.chance(1, 3) { bal } else { r.below128(bal) + 1 };
+                    t.run(&mut w, json!({"op": "cw20_burn", "token": id_of(&lp), "caller": holder, "amount": st(a)}));
+                }
+                if everyone {
+                    // liquidity is provided again on the burnt-out pair, then swapped against and withdrawn
+                    let (a0, a1) = pair_infos(&w, i);
+                    let paddr = w.pairs[i].addr.clone();
+                    let (r0, r1) = (balance(&w, &a0, &paddr), balance(&w, &a1, &paddr));
+                    for f in [1u128, 3] {
+                        let op = op_provide(&w, i, "bob", (r0 / f).max(1).min(1u128 << 100), (r1 / f).max(1).min(1u128 << 100), nul(), nul());
+                        t.run(&mut w, op);
+                    }
+                    let op = op_swap(&w, i, "carol", &a0, (r0 / 50).max(1).min(1u128 << 100), nul(), nul(), nul());
+                    t.run(&mut w, op);
+                }
+            }
+        }
     }
     // drain-and-refill: every holder exits completely (only the reserved unit remains), the dust left
     // behind may be inflated by a donation, then liquidity is provided again
